@@ -667,8 +667,10 @@ inline ParseResult parse_xerces(const Config& c, const ParseIO& io, ParseSession
             DOMConfiguration* dc = p->getDomConfig();
             dc->setParameter(XMLUni::fgXercesScannerName, (void*)X16(ScnName[c.scanner]).p());
             dc->setParameter(XMLUni::fgDOMNamespaces, c.ns);
-            dc->setParameter(XMLUni::fgDOMValidate, c.val == 1);
-            dc->setParameter(XMLUni::fgDOMValidateIfSchema, c.val == 2);
+            // order matters: setting either parameter to false resets the scheme to "never", so the one that is true goes last
+            if (c.val == 1) { dc->setParameter(XMLUni::fgDOMValidateIfSchema, false); dc->setParameter(XMLUni::fgDOMValidate, true); }
+            else if (c.val == 2) { dc->setParameter(XMLUni::fgDOMValidate, false); dc->setParameter(XMLUni::fgDOMValidateIfSchema, true); }
+            else { dc->setParameter(XMLUni::fgDOMValidate, false); dc->setParameter(XMLUni::fgDOMValidateIfSchema, false); }
             dc->setParameter(XMLUni::fgXercesSchema, c.schema);
             dc->setParameter(XMLUni::fgXercesSchemaFullChecking, c.fullcheck);
             dc->setParameter(XMLUni::fgXercesContinueAfterFatalError, !c.exitFirstFatal);
